@@ -89,10 +89,26 @@ TrRes == /\ Is("res")
          /\ lind' = lind \ {Ev.op}
          /\ UNCHANGED <<cvars, pend>> /\ Mark
 
+(* C16 under concurrency: the after-events the stores produced during the history ("stored"  *)
+(* is announced by the delivery path above the store, the stores announce removals).  Every  *)
+(* message that ever entered a mailbox (used) and is no longer there was announced "deleted" *)
+(* exactly once, nothing else was announced, and the listener was never invoked again before *)
+(* it had returned                                                                           *)
+Obs == Ev.evs
+Key(e) == [k |-> e.k, mb |-> e.mb, id |-> e.id]
+LiveIds(m) == {boxes[m][i].id : i \in DOMAIN boxes[m]}
+ExpectedEvents ==
+    UNION {{[k |-> "deleted", mb |-> m, id |-> i] : i \in used[m] \ LiveIds(m)} : m \in Mailbox}
+EventsOK ==
+    /\ {Key(Obs[i]) : i \in DOMAIN Obs} = ExpectedEvents
+    /\ Len(Obs) = Cardinality(ExpectedEvents)                      \* no event twice
+    /\ \A i, j \in DOMAIN Obs : i # j => (Obs[i].ex < Obs[j].en \/ Obs[j].ex < Obs[i].en)
+
 (* all goroutines have finished: the store is what the linearization left *)
 TrFinal == /\ Is("final") /\ pend = {} /\ lind = {}
            /\ AtRest                       \* nothing doomed is left, the store is within its limit
            /\ SnapOK(boxes)
+           /\ ("evs" \in DOMAIN Ev) => EventsOK
            /\ UNCHANGED <<cvars, pend, lind>> /\ Mark
 
 (* first touch: several clients delivered to a brand-new mailbox at the same    *)
